@@ -1,4 +1,6 @@
 import E3fpVerif.Model.Fprint
+import E3fpVerif.Lemmas.Uniq
+import E3fpVerif.Lemmas.FpAux
 namespace E3fpVerif.Props.C09
 open E3fpVerif
 
@@ -12,5 +14,156 @@ theorem eq_bit_iff (f g : Fp) (hf : f.kind = .bit) (hg : g.kind = .bit) (hcf : f
   simp only [Fp.eq, Fp.mk.injEq, true_and, and_true]
   congr 1
   by_cases h1 : l1 = l2 <;> by_cases h2 : b1 = b2 <;> by_cases h3 : i1 = i2 <;> simp [h1, h2, h3]
+
+/-- `==` between count / float fingerprints compares level, length, counts dictionary and class -/
+theorem eq_count_iff (f g : Fp) (hf : f.kind ≠ .bit) (hg : g.kind ≠ .bit) :
+    f.eq g = .ok (decide (f.level = g.level ∧ f.bits = g.bits ∧ f.cnt = g.cnt ∧ f.kind = g.kind)) := by
+  unfold Fp.eq
+  cases hf' : f.kind <;> cases hg' : g.kind <;> simp_all <;> grind
+
+/-- for well-formed count / float fingerprints (indices are the count keys) `==` decides equality of content -/
+theorem eq_count_iff_wf (f g : Fp) (hf : f.kind ≠ .bit) (hg : g.kind ≠ .bit) (hwf : f.WF) (hwg : g.WF) :
+    f.eq g = .ok (decide (f = g)) := by
+  rw [eq_count_iff f g hf hg]
+  congr 1
+  have h1 := hwf.2.2.2 hf
+  have h2 := hwg.2.2.2 hg
+  obtain ⟨k1, b1, l1, i1, c1⟩ := f
+  obtain ⟨k2, b2, l2, i2, c2⟩ := g
+  simp only at h1 h2
+  simp only [Fp.mk.injEq, decide_eq_decide]
+  constructor
+  · rintro ⟨rfl, rfl, rfl, rfl⟩
+    exact ⟨rfl, rfl, rfl, by rw [← h1, ← h2], rfl⟩
+  · rintro ⟨rfl, rfl, rfl, _, rfl⟩
+    exact ⟨rfl, rfl, rfl, rfl⟩
+
+/-- for well-formed fingerprints of one family `==` decides equality of content -/
+theorem eq_iff_wf (f g : Fp) (hwf : f.WF) (hwg : g.WF) (hfam : f.kind = .bit ↔ g.kind = .bit) :
+    f.eq g = .ok (decide (f = g)) := by
+  by_cases hf : f.kind = .bit
+  · exact eq_bit_iff f g hf (hfam.1 hf) (hwf.2.2.1 hf) (hwg.2.2.1 (hfam.1 hf))
+  · exact eq_count_iff_wf f g hf (fun e => hf (hfam.2 e)) hwf hwg
+
+/-- `==` is reflexive, for every fingerprint -/
+theorem eq_refl (f : Fp) : f.eq f = .ok true := by
+  unfold Fp.eq
+  split <;> simp_all
+
+/-- `==` is symmetric, errors included: a bit operand against a count operand is rejected both ways round -/
+theorem eq_symm (f g : Fp) : f.eq g = g.eq f := by
+  unfold Fp.eq
+  cases hf : f.kind <;> cases hg : g.kind <;> simp only [Except.ok.injEq] <;> grind
+
+/-- the two operands of a successful comparison belong to one family -/
+theorem eq_ok_family (f g : Fp) (b : Bool) (h : f.eq g = .ok b) : (f.kind = .bit ↔ g.kind = .bit) := by
+  unfold Fp.eq at h
+  cases hf : f.kind <;> cases hg : g.kind <;> simp_all
+
+/-- within a family `==` never raises -/
+theorem eq_total (f g : Fp) (hfam : f.kind = .bit ↔ g.kind = .bit) : ∃ b, f.eq g = .ok b := by
+  unfold Fp.eq
+  cases hf : f.kind <;> cases hg : g.kind <;> simp_all
+
+/-- across the families `==` raises `InvalidFingerprintError` -/
+theorem eq_cross_family (f g : Fp) (hfam : ¬ (f.kind = .bit ↔ g.kind = .bit)) : f.eq g = .error .invalidFp := by
+  unfold Fp.eq
+  cases hf : f.kind <;> cases hg : g.kind <;> simp_all
+
+/-- `==` is transitive (the hypotheses already force all three operands into one family) -/
+theorem eq_trans (f g h : Fp) (h1 : f.eq g = .ok true) (h2 : g.eq h = .ok true) : f.eq h = .ok true := by
+  unfold Fp.eq at *
+  cases hf : f.kind <;> cases hg : g.kind <;> cases hh : h.kind <;> simp_all
+
+/-- `!=` is the negation of `==`, errors propagated -/
+theorem ne_is_not_eq (f g : Fp) : f.ne g = (f.eq g).map not := rfl
+
+/-- within a family `!=` never raises and is the Boolean complement of `==` -/
+theorem ne_total (f g : Fp) (hfam : f.kind = .bit ↔ g.kind = .bit) :
+    ∃ b, f.eq g = .ok b ∧ f.ne g = .ok (!b) := by
+  obtain ⟨b, hb⟩ := eq_total f g hfam
+  exact ⟨b, hb, by rw [ne_is_not_eq, hb]; rfl⟩
+
+example : (⟨.bit, 8, 5, [1, 3], []⟩ : Fp).eq ⟨.bit, 8, 5, [1, 3], []⟩ = .ok true := eq_refl _
+example : (⟨.bit, 8, 5, [1, 3], []⟩ : Fp).eq ⟨.bit, 8, 5, [1, 4], []⟩ = .ok false := rfl
+example : (⟨.bit, 8, 5, [1, 3], []⟩ : Fp).eq ⟨.count, 8, 5, [1, 3], [(1, 1), (3, 1)]⟩ = .error .invalidFp := rfl
+example : (⟨.bit, 8, 5, [1, 3], []⟩ : Fp).ne ⟨.bit, 8, 5, [1, 4], []⟩ = .ok true := rfl
+
+/-! ## copies -/
+
+/-- `Fingerprint.from_fingerprint(f)` of a bit fingerprint is an equal fingerprint -/
+theorem copy_equal_bit (f : Fp) (hk : f.kind = .bit) (hwf : f.WF) : fromFingerprint .bit f = .ok f :=
+  mkBit_self f hk hwf
+
+/-- `cls.from_fingerprint(f)` of a count / float fingerprint of the same class is an equal fingerprint,
+provided every stored count is positive (zero and negative counts are dropped by the copy) and is a fixed
+point of the class's value setter (`int` for counts) -/
+theorem copy_equal (f : Fp) (hk : f.kind ≠ .bit) (hwf : f.WF) (hpos : ∀ p ∈ f.cnt, 0 < p.2)
+    (hst : ∀ p ∈ f.cnt, coerce f.kind p.2 = p.2) : fromFingerprint f.kind f = .ok f := by
+  rw [fromFingerprint_eq f.kind hk f hwf hpos, map_count_self f hk hwf f.kind hst]
+
+/-- and the copy compares equal -/
+theorem copy_eq_true (f g : Fp) (hwf : f.WF) (hpos : ∀ p ∈ f.cnt, 0 < p.2)
+    (hst : ∀ p ∈ f.cnt, coerce f.kind p.2 = p.2) (hc : fromFingerprint f.kind f = .ok g) :
+    f.eq g = .ok true := by
+  by_cases hk : f.kind = .bit
+  · rw [hk] at hc; rw [copy_equal_bit f hk hwf] at hc; cases hc; exact eq_refl f
+  · rw [copy_equal f hk hwf hpos hst] at hc; cases hc; exact eq_refl f
+
+/-- the positivity hypothesis of `copy_equal` cannot be dropped: a stored zero count is lost by the copy -/
+theorem copy_drops_zero_count :
+    let f : Fp := ⟨.count, 8, 0, [1], [(1, 0)]⟩
+    f.WF ∧ fromFingerprint .count f = .ok ⟨.count, 8, 0, [], []⟩ := by
+  refine ⟨⟨by decide, by decide, by simp, by simp⟩, ?_⟩
+  simp [fromFingerprint, Fp.countsDict, mkCount, uniq]
+
+/-- pickling and unpickling gives back the same content -/
+theorem pickle_equal (f : Fp) (hwf : f.WF) : Fp.pickleRoundTrip f = f := by
+  unfold Fp.pickleRoundTrip
+  split
+  · rfl
+  · rename_i hk
+    rw [hwf.2.2.2 (fun e => hk e), uniq_of_strictAsc _ hwf.1]
+
+def exC : Fp := ⟨.count, 8, 5, [1, 3], [(1, 2), (3, 1)]⟩
+theorem exC_wf : exC.WF := ⟨by decide, by decide, by simp [exC], by simp [exC]⟩
+
+example : fromFingerprint .count exC = .ok exC := by
+  apply copy_equal exC (by simp [exC]) exC_wf
+  · intro p hp; simp only [exC, List.mem_cons, List.not_mem_nil, or_false] at hp
+    rcases hp with rfl | rfl <;> grind
+  · intro p hp; simp only [exC, List.mem_cons, List.not_mem_nil, or_false] at hp
+    rcases hp with rfl | rfl
+    · exact coerce_natCast .count 2
+    · exact coerce_natCast .count 1
+
+example : fromFingerprint .bit ⟨.bit, 8, 5, [1, 3], []⟩ = .ok ⟨.bit, 8, 5, [1, 3], []⟩ :=
+  copy_equal_bit _ rfl ⟨by decide, by decide, by simp, by simp⟩
+
+example : exC.eq exC = .ok (decide (exC = exC)) :=
+  eq_count_iff_wf exC exC (by simp [exC]) (by simp [exC]) exC_wf exC_wf
+
+example : exC.eq exC = .ok true := eq_trans exC exC exC (eq_refl _) (eq_refl _)
+
+example : ∃ b, exC.eq { exC with level := 2 } = .ok b ∧ exC.ne { exC with level := 2 } = .ok (!b) :=
+  ne_total _ _ (by simp [exC])
+
+example : exC.eq ⟨.bit, 8, 5, [1, 3], []⟩ = .error .invalidFp := eq_cross_family _ _ (by simp [exC])
+
+/-- "copies are independent": the model is purely functional, a copy shares no state with its source, so
+changing a field of the copy leaves the source equal to itself and unequal to the changed copy -/
+theorem copy_independent (f g : Fp) (hk : f.kind = .bit) (hwf : f.WF) (hc : fromFingerprint .bit f = .ok g)
+    (l : Int) (hl : l ≠ f.level) : f.eq f = .ok true ∧ f.eq { g with level := l } = .ok false := by
+  rw [copy_equal_bit f hk hwf] at hc
+  cases hc
+  refine ⟨eq_refl f, ?_⟩
+  unfold Fp.eq
+  simp only [hk]
+  have : (f.level == l) = false := by simpa using fun e => hl e.symm
+  rw [this]; rfl
+
+example : (⟨.bit, 8, 5, [1, 3], []⟩ : Fp).eq { (⟨.bit, 8, 5, [1, 3], []⟩ : Fp) with level := 2 } = .ok false :=
+  (copy_independent ⟨.bit, 8, 5, [1, 3], []⟩ _ rfl ⟨by decide, by decide, by simp, by simp⟩
+    (copy_equal_bit _ rfl ⟨by decide, by decide, by simp, by simp⟩) 2 (by decide)).2
 
 end E3fpVerif.Props.C09
